@@ -49,5 +49,8 @@ def run_rules(ctx, names):
         r = cache[fn].get(n)
         if r is None:
             raise KeyError("rule function for %s did not produce it" % n)
+        if r.floor_failures and not r.violations:
+            from .facts import AnalysisError
+            raise AnalysisError("; ".join(r.floor_failures))
         out.append(r)
     return out
